@@ -60,7 +60,7 @@ class Builder:
             anns.append("%s: %s" % (p[0], "ScratchVar" if p[2] == "ref" else "Expr"))
         src = "def fn(%s) -> Expr:\n    return impl(%s)\n" % (", ".join(anns), ", ".join("%s=%s" % (n, n) for n in pnames))
         g = {"impl": impl, "ScratchVar": pt.ScratchVar, "Expr": pt.Expr}
-        exec(src, g)
+        exec(compile(src, "<recipe-routine>", "exec", dont_inherit=True), g)  # dont_inherit: no postponed annotations
         fn = g["fn"]
         name = self.name_override.get(idx, r["name"])
         fn.__name__ = "fn_%d" % idx
